@@ -544,14 +544,24 @@ func (p *Program) c04CheckDoneReturns(o *Obligation, fn *ssa.Function, justs []c
 
 func c04r4(c *Ctx) {
 	p := c.P
-	for _, ws := range allWriterSites(p.productFuncs()) {
-		if ws.Verb != "Delete" || ws.Class == "typed" {
-			continue
+	for _, dc := range p.dynDeleteContexts() {
+		fn := dc.Fn
+		del := dc.ErrCall()
+		x := dc.Obj
+		if dc.Helper != nil {
+			// the Delete was extracted into a helper: its call stands for the delete if the helper
+			// returns exactly the delete's error
+			ok := false
+			for _, ws := range allWriterSites([]*ssa.Function{dc.Helper}) {
+				if ws.Verb == "Delete" && p.helperReturnsOnly(dc.Helper, ws.Call.Instr) {
+					ok = true
+				}
+			}
+			if !ok {
+				del = nil
+			}
 		}
-		fn := ws.Call.Fn
-		del, _ := ws.Call.Instr.(*ssa.Call)
-		x := ws.Obj
-		o := c.Ob(fn, "object-done", ws.Call.Instr, c.rule.Statement)
+		o := c.Ob(fn, "object-done", dc.Site, c.rule.Statement)
 		if del == nil || fn.Signature.Results().Len() != 2 || fn.Signature.Results().At(0).Type().String() != "bool" {
 			o.Unknown("the function containing the dynamic Delete does not return (done bool, err error)")
 			continue
